@@ -189,20 +189,37 @@ def ob_strings(w):
         for c in b:
             out += '\\x%02x' % c
         return '"' + out + '"'
+    # long constants: every length 0..200 with bytes that need escaping at every phase (a directive may not depend on where in the string they fall)
+    from hidc.codegen import asm as _asm
+    specials = b'"\\\n\r\t\x00\'\x7f\xff'
+    for n_ in range(0, 201):
+        for phase in range(0, 7):
+            data = bytes(specials[(i // 7) % len(specials)] if i % 7 == phase else 97 + i % 26 for i in range(n_))
+            try:
+                got = decode(_asm.AsciiDirective(data), w)
+            except (reader.AsmSyntaxError, ValueError) as e:
+                got = f'not well-formed: {e}'
+            if got != data:
+                bad.append({'problem': 'a long string constant is not emitted faithfully', 'length': n_, 'data': data.hex()[:80], 'read_back': got.hex()[:80] if isinstance(got, bytes) else got[:200]})
+                break
+        if bad: break
     src = 'empty @is_you() { ' + ' '.join(f'write({lit(s)});' for s in strings) + ' }'
-    lines = svm.compile_hid(src, word_size=w)
-    img = svm.Image(lines)
-    vm = svm.VM(image=img)
-    res = vm.run(2_000_000)
-    want = b''.join(strings)
-    if res != 'win' or vm.out != want:
-        bad.append({'problem': 'printing the constants does not give their bytes', 'end': res, 'printed': vm.out[:60].hex(), 'documented': want[:60].hex()})
-    labels = {k: v for k, v in img.labels.items() if k.startswith('string_')}
-    if len(labels) != len(set(strings)): bad.append({'problem': 'number of string table entries differs from the number of distinct strings', 'entries': len(labels), 'distinct': len(set(strings))})
-    for k, a in labels.items():
-        ln = int.from_bytes(img.const[a:a + w], 'little')
-        data = bytes(img.const[a + w:a + w + ln])
-        if data not in set(strings): bad.append({'label': k, 'length': ln, 'data': data[:20].hex(), 'problem': 'entry is not one of the literals'})
+    try:
+        lines = svm.compile_hid(src, word_size=w)
+        img = svm.Image(lines)
+        vm = svm.VM(image=img)
+        res = vm.run(2_000_000)
+        want = b''.join(strings)
+        if res != 'win' or vm.out != want:
+            bad.append({'problem': 'printing the constants does not give their bytes', 'end': res, 'printed': vm.out[:60].hex(), 'documented': want[:60].hex()})
+        labels = {k: v for k, v in img.labels.items() if k.startswith('string_')}
+        if len(labels) != len(set(strings)): bad.append({'problem': 'number of string table entries differs from the number of distinct strings', 'entries': len(labels), 'distinct': len(set(strings))})
+        for k, a in labels.items():
+            ln = int.from_bytes(img.const[a:a + w], 'little')
+            data = bytes(img.const[a + w:a + w + ln])
+            if data not in set(strings): bad.append({'label': k, 'length': ln, 'data': data[:20].hex(), 'problem': 'entry is not one of the literals'})
+    except (reader.AsmSyntaxError, svm.VMError) as e:
+        bad.append({'problem': f'the emitted assembly is not well-formed / does not run: {type(e).__name__}: {e}'[:400], 'program': src[:200]})
     det = {'formula': 'string table: one (length word, bytes) entry per distinct literal; writing the literals prints exactly their bytes (all 256 byte values included)',
            'domain': len(strings), 'functions': ['hidc.codegen.generator.CodeGen.label_for_string', 'hidc.codegen.generator.CodeGen.gen_lines', 'hidc.codegen.asm.AsciiDirective.lines',
                                                  'hidc.codegen.asm.lines']}
